@@ -13,6 +13,7 @@ CONSTANTS
   StreamBatch = 1
   StreamRestarts = FALSE
   ResetOnRestart = TRUE
+  ErrIsAbsent = FALSE
   GenHist = FALSE
 INIT Init
 NEXT Next
